@@ -91,6 +91,12 @@ append_derivation(CPPType *base, CPPVisibility vis, bool is_virtual) {
       def = base->as_typedef_type();
     }
 
+    if (base == this) {
+      // "struct X : X {}" is ill-formed (X is incomplete at that point);
+      // recording it would make every walk over the bases recurse forever.
+      return;
+    }
+
     if (vis == V_unknown && base->as_extension_type() != nullptr) {
       // Default visibility.
       if (base->as_extension_type()->_type == T_class) {
